@@ -171,7 +171,7 @@ func (g *raceGen) featUnknown() {
 			known = append(known, n)
 		}
 	}
-	g.root.task("unk-build", "cmds: ['echo unk-build']")
+	g.root.task("unk-build", "desc: 'build {{.V}}'", "cmds: ['echo unk-build']")
 	g.root.task("unk-test", "aliases: [unk-t]", "cmds: ['echo unk-test']")
 	known = append(known, "unk-build", "unk-test", "unk-t")
 	exists := map[string]bool{}
@@ -305,7 +305,7 @@ func (g *raceGen) featFinger() {
 	}
 	g.root.task("fp-cs", meth(), src, "generates: ['out/cs-{{.V}}.txt']",
 		"cmds: ['printf \"%s\" {{.V}} > out/cs-{{.V}}.txt', 'echo {{.CHECKSUM}}{{.TIMESTAMP}}']")
-	g.root.task("fp-ts", "method: timestamp", src, "generates: ['out/ts.txt']", "cmds: ['printf x > out/ts.txt', 'echo {{.TIMESTAMP}}']")
+	g.root.task("fp-ts", "desc: 'ts {{.TIMESTAMP}}'", "method: timestamp", src, "generates: ['out/ts.txt']", "cmds: ['printf x > out/ts.txt', 'echo {{.TIMESTAMP}}']")
 	g.root.task("fp-st", "status: ['test -f out/st-{{.V}}.txt']", "cmds: ['printf x > out/st-{{.V}}.txt']")
 	g.root.task("fp-stsrc", src, "status: ['test -f out/sts.txt']", "cmds: ['printf x > out/sts.txt']")
 	dir := g.pick("fresh/d", "fresh/{{.V}}", "out/new")
@@ -390,7 +390,7 @@ func (g *raceGen) featShVars() {
 	}
 	g.root.task("sh-t", "vars:", "  T1: {sh: 'echo t1-{{.V}}'}", "  T2: {sh: 'echo same'}", "  T3: {sh: 'echo same'}", "  T4: {sh: 'echo {{.T1}}-dep-{{.SH_G}}'}",
 		"cmds: ['echo {{.SH_G}} {{.SH_G2}} {{.T1}} {{.T2}} {{.T3}} {{.T4}}']")
-	g.root.task("sh-u", "vars:", "  U1: {sh: 'echo same'}", "  U2: {sh: 'printf \"a\\nb\\n\"'}", "cmds: ['echo \"{{.U1}} {{.U2}}\"']")
+	g.root.task("sh-u", "desc: 'u {{.U1}}'", "vars:", "  U1: {sh: 'echo same'}", "  U2: {sh: 'printf \"a\\nb\\n\"'}", "cmds: ['echo \"{{.U1}} {{.U2}}\"']")
 	g.root.task("sh-d", "dir: shdir", "vars:", "  D1: {sh: 'echo same'}", "  D2: {sh: 'pwd'}", "cmds: ['echo {{.D1}} {{.D2}}']")
 	g.root.task("sh-fail", "vars:", "  F1: {sh: 'exit 4'}", "cmds: ['echo {{.F1}}']")
 	g.entry("sh-t", "V", "1")
@@ -436,7 +436,7 @@ func (g *raceGen) featDotenv() {
 // wildcard tasks and aliases
 func (g *raceGen) featWildcard() {
 	g.feat("wildcard")
-	g.root.task("wcb-*", "vars: {M0: '{{index .MATCH 0}}'}", "cmds: ['echo wcb {{.M0}} {{.MATCH}} {{.V}}']")
+	g.root.task("wcb-*", "desc: 'wildcard {{.MATCH}}'", "vars: {M0: '{{index .MATCH 0}}'}", "cmds: ['echo wcb {{.M0}} {{.MATCH}} {{.V}}']")
 	g.root.task("*-wx-*", "cmds: ['echo wx {{index .MATCH 0}}/{{index .MATCH 1}} {{.V}}']")
 	g.root.task("al-t", "aliases: [al-a, al-b]", "cmds: ['echo alias {{.ALIAS}} {{.TASK}} {{.V}}']")
 	g.entry("wcb-one", "V", "1")
@@ -481,7 +481,7 @@ func (g *raceGen) featLabels() {
 // deferred commands and deferred task calls
 func (g *raceGen) featDefers() {
 	g.feat("defers")
-	g.root.task("df-helper", "cmds: ['echo helper {{.V}} {{.FROM}}']")
+	g.root.task("df-helper", "desc: helper", "cmds: ['echo helper {{.V}} {{.FROM}}']")
 	d1 := "{defer: 'printf \"d1 {{.V}} code={{.EXIT_CODE}}\\n\"'}"
 	d2 := "{defer: {task: df-helper, vars: {V: '{{.V}}', FROM: 'defer-{{.V}}'}}}"
 	d3 := "{defer: 'echo d3 {{if .EXIT_CODE}}failed {{.EXIT_CODE}}{{else}}fine{{end}}'}"
@@ -514,7 +514,7 @@ func (g *raceGen) featRunOnce() {
 	if g.p(0.3) {
 		slow = ", 'sleep 0.01'"
 	}
-	g.root.task("ro-shared", "run: once", "cmds: ['echo shared'"+slow+"]")
+	g.root.task("ro-shared", "desc: 'shared {{.TASK}}'", "run: once", "cmds: ['echo shared'"+slow+"]")
 	g.root.task("ro-wc", "run: when_changed", "cmds: ['echo wc {{.V}}']")
 	g.root.task("ro-fail", "run: once", "cmds: ['echo failing', 'exit 2']")
 	g.root.task("ro-user", "deps: [ro-shared, {task: ro-wc, vars: {V: '{{.V}}'}}]", "cmds: ['echo user {{.V}}', {task: ro-shared}, {task: ro-wc, vars: {V: '{{.V}}'}}]")
@@ -598,7 +598,7 @@ func (g *raceGen) featFor() {
 	g.files["src/a.txt"] = "a\n"
 	g.files["src/b.txt"] = "b\n"
 	g.root.vars = append(g.root.vars, "FL_LIST: [x, y, z]", "FL_STR: 'p,q,r'", "FL_WORDS: 'u v w'", "FL_MAP: {map: {k1: v1, k2: v2}}")
-	g.root.task("fo-leaf", "cmds: ['echo leaf {{.X}}']")
+	g.root.task("fo-leaf", "desc: 'leaf {{.X}} {{.FL_LIST}}'", "cmds: ['echo leaf {{.X}}']")
 	g.root.task("fo-matrix", "cmds:", "  - for:", "      matrix:", "        A: {ref: .FL_LIST}", "        B: [1, 2]", "    cmd: 'echo {{.ITEM.A}}{{.ITEM.B}} {{.V}}'")
 	g.root.task("fo-cmds", "sources: ['src/*.txt']", "cmds:",
 		"  - {for: {var: FL_LIST}, cmd: 'echo {{.ITEM}} {{.V}}'}",
@@ -862,6 +862,12 @@ func (g *raceGen) arrange() (string, []raceCall) {
 		g.root.task("top2", "deps: "+flowList(items(es[h:])), "ignore_error: true", "cmds: "+flowList(items(es[:h])))
 		g.opts.Parallel = true
 		calls = []raceCall{{Task: "top", Vars: map[string]string{"TOPV": "1"}}, {Task: "top2"}}
+	}
+	if g.p(0.03) {
+		// an unknown name on the command line: Run refuses it before anything starts, after listing
+		// (= compiling concurrently) every task that has a description
+		g.feat("top-level-unknown")
+		calls = append(calls, raceCall{Task: "zz-no-such-target"})
 	}
 	return arr, calls
 }
